@@ -402,6 +402,40 @@ func (t *taintCtx) checkHiddenState(fn *ssa.Function, st *ssa.Store) {
 			t.add(fn, "R13.2", "store through pointer parameter/receiver "+x.Name()+" (hidden decoder state)", st.Pos(), "param-store:"+fn.Name()+"."+x.Name())
 		}
 	case *ssa.FreeVar:
+		// a closure assigning a local variable of the function that created it keeps no state
+		// beyond that function's activation
+		if par := fn.Parent(); par != nil {
+			local := false
+			for _, b := range par.Blocks {
+				for _, in := range b.Instrs {
+					mc, ok := in.(*ssa.MakeClosure)
+					if !ok || mc.Fn != ssa.Value(fn) {
+						continue
+					}
+					for i, fv := range fn.FreeVars {
+						if fv == x && i < len(mc.Bindings) {
+							if _, isAlloc := mc.Bindings[i].(*ssa.Alloc); isAlloc {
+								// ... provided the closure itself does not outlive it: it is only called
+								// or handed to a call
+								local = true
+								if refs := mc.Referrers(); refs != nil {
+									for _, r := range *refs {
+										switch r.(type) {
+										case *ssa.Call, *ssa.DebugRef:
+										default:
+											local = false
+										}
+									}
+								}
+							}
+						}
+					}
+				}
+			}
+			if local {
+				return
+			}
+		}
 		t.add(fn, "R13.2", "store through captured variable "+x.Name(), st.Pos(), "freevar-store")
 	}
 }
